@@ -5,7 +5,6 @@ package c10
 // census (DESIGN §3.4), then the oracles of oracle_test.go.
 
 import (
-	"os"
 	"runtime"
 	"sync"
 	"time"
@@ -123,14 +122,6 @@ func (r *run) await(done <-chan outcome) awaited {
 }
 
 func execute(c *kit.Case, p plan) {
-	if os.Getenv("C10_TIMING") != "" {
-		t0 := time.Now()
-		defer func() {
-			if d := time.Since(t0); d > 100*time.Millisecond {
-				println("SLOW", d.String(), c.ID, p.API, p.Kind, p.At.String(), p.Then, p.Ctx, p.Items)
-			}
-		}()
-	}
 	r := newRun(c, c.ID, p)
 	base := runtime.NumGoroutine()
 	over := make(chan struct{})
